@@ -4,6 +4,7 @@ mod bpt;
 mod ck;
 mod dmg;
 mod e2;
+mod e3;
 mod lockeng;
 mod orc;
 mod ri;
@@ -70,6 +71,7 @@ fn main() {
                     e2_engine.get_or_insert_with(e2::E2::new).cmd(&toks[1..])
                 }
             }
+            "e3" => e3::cmd(&toks[1..]),
             "lk" => {
                 if toks.len() > 1 && toks[1] == "new" {
                     lk_engine = None; // kills the children, closes the openers, removes the directory
